@@ -254,10 +254,20 @@ impl PersistWal {
         // all data to batch files, so the WAL entries are redundant.
         if self.current_file.exists() {
             fs::remove_file(&self.current_file)?;
+            self.sync_wal_dir();
         }
 
         self.entries_written = 0;
         Ok(())
+    }
+
+    /// Make a removal of the WAL file durable. If a power loss undid the unlink, the old
+    /// entries would be replayed on top of the batches they were flushed to (or of a shard
+    /// that was dropped since).
+    fn sync_wal_dir(&self) {
+        if let Ok(dir) = File::open(&self.wal_dir) {
+            let _ = dir.sync_all();
+        }
     }
 
     /// Sync WAL to disk (flushes buffer and calls fsync)
@@ -293,6 +303,7 @@ impl PersistWal {
             // No surviving entries: just remove the WAL file
             if self.current_file.exists() {
                 fs::remove_file(&self.current_file)?;
+                self.sync_wal_dir();
             }
             self.entries_written = 0;
             return Ok(());
